@@ -260,6 +260,7 @@ def run(prog, ctx):
         ctx.fail("O6", "join_same_entries() is called", rf.where, "%d calls" % len(jc), key="join-call")
     else:
         o8(prog, ctx)
+        o8b(prog, ctx)
         o9(prog, ctx)
         ok, cut = rcfg.all_paths_cut(rcfg.block_of(jc[0]), lambda lit, b, i: lit is not None and lit.atom.endswith("->join_same_entries") and lit.pol)
         if ok and cut:
@@ -322,6 +323,16 @@ def run(prog, ctx):
                 else:
                     ctx.fail("O7", "the join pass visits every later definition of a key", early[0].where,
                              "the scan of later definitions is left early (%s): with three or more definitions only the first ones are joined" % early[0].k, key="join-early-exit")
+            # each key's list is made of its own definitions: nothing the pass remembers about one key is used for the next
+            car = _loops.carried_locals(outer[0])
+            if car:
+                v, dnode, unode = car[0]
+                ctx.fail("O7", "the join of a key uses only that key's definitions", unode.where,
+                         "`%s` set at %s while one key is joined is still in force when the next key is joined (it is not set again at the start of "
+                         "a round of the outer loop): the value list of a key then depends on how the key before it ended" % (v, dnode.where),
+                         key="join-carried:%s" % v)
+            else:
+                ctx.ok("O7", "the join of a key uses only that key's definitions", outer[0].where, "no local survives from one round of the outer loop to the next")
         else:
             ctx.inconclusive("O7", "the join pass visits every later definition of a key", jf.where, "pairwise loops not recognised")
         a0 = render(jc[0].call_args()[0])
@@ -329,6 +340,13 @@ def run(prog, ctx):
             ctx.ok("O6", "join_same_entries() works on the file being read", jc[0].where, a0)
         else:
             ctx.fail("O6", "join_same_entries() works on the file being read", jc[0].where, "argument %s" % a0, key="join-arg")
+
+
+def o8b(prog, ctx):
+    """O8b: a continuation is recognised by the previous entry's line number (entry.line_number + 1 == line in read_file): store()
+    must record it whenever it accepts a line (= C17.P4)."""
+    from rules import C17 as _C17
+    _C17.success_records_line(prog, ctx, "O8")
 
 
 def o9(prog, ctx):
